@@ -204,7 +204,31 @@ func gen(t *tl.T) {
 	}
 	t.Fact("d2ascii: %d files, %d string literals that can reach the canvas, %d byte-index sites", len(files), len(lits), len(idxSites))
 
+	// DrawLabel: does the column advance by the byte offset of `range line` or by one per rune?
+	dl := t.Func(root+"/asciicanvas/asciicanvas.go", "Canvas", "DrawLabel")
+	byteOffsets, perRune := false, false
+	ast.Inspect(dl.Body, func(n ast.Node) bool {
+		rs, ok := n.(*ast.RangeStmt)
+		if !ok || t.Src(rs.X) != "line" {
+			return true
+		}
+		body := t.Src(rs.Body)
+		if rs.Key != nil && t.Src(rs.Key) != "_" && strings.Contains(body, "c.Set(x+"+t.Src(rs.Key)+",") {
+			byteOffsets = true
+		}
+		if (rs.Key == nil || t.Src(rs.Key) == "_") && strings.Contains(body, "++") {
+			perRune = true
+		}
+		return false
+	})
+	if byteOffsets == perRune {
+		t.Fail("DrawLabel: cannot tell how the column advances (byte offsets: %v, per rune: %v)", byteOffsets, perRune)
+	}
+	t.Fact("DrawLabel advances by byte offsets: %v", byteOffsets)
+
 	t.P("namespace D2V.Gen.AsciiCharset\n\n")
+	t.P("/-- asciicanvas.DrawLabel uses the byte offset of `for i, ch := range line` as the column (false: one column per rune) -/\n")
+	t.P("def drawLabelByteOffsets : Bool := %v\n\n", byteOffsets)
 	t.P("/-- methods of the charset.Set interface -/\n")
 	t.P("def setMethods : List String := %s\n\n", tl.LeanStringList(iface))
 	pr := func(name string, g [][2]string) {
